@@ -775,7 +775,7 @@ func (c *CEnv) quant(e *CE) Value {
 	for _, v := range e.Vars {
 		name := fmt.Sprintf("%s!q%d", v, tag)
 		// a struct type: one bound symbol per leaf
-		if st := lookupNamedType(c.pkg, e.Typ); st != nil && kindOf(st) == KStruct {
+		if st := lookupNamedType(c.pkg, e.Typ); st != nil && (kindOf(st) == KStruct || kindOf(st) == KArray) {
 			var ls []*Term
 			for li, lf := range m.flatten(st) {
 				ln := fmt.Sprintf("%s.%d", name, li)
